@@ -19,7 +19,7 @@ pub fn spec() -> Spec {
     Spec {
         prop: "C16",
         level: "exploration",
-        rule: "Arithmetic from the statement computed in the harness: for every executed transaction gasUsed <= saturating(12000 x L); a transaction whose allowance is below its need fails, and the state part of Obs (code, storage, nonces over the universe) before vs after a block containing only that transaction may differ in nothing but the sender's nonce; the estimate loop is closed: eth_estimateGas and eth_call are answered at a block boundary, then the same call is executed with L = ceil(estimate / 12000) and must succeed with the same output (trace output). Programs (no GAS/TIMESTAMP/PREVRANDAO dependence): burner loops 0..1e5, cold/warm storage writes and clears (refunds), memory expansion, CREATE, logs, revert-bubbling nested calls, standard and Bitcoin precompiles; L from 0 through need to 2^64-1; inscription, signed and parked-then-drained transactions. Non-trivial = allowance was the binding constraint (failed for lack of gas, or gasUsed within 10% of the allowance) or an estimate above the 21000 floor whose loop closed; distinct by (program, situation).",
+        rule: "Arithmetic from the statement computed in the harness: for every executed transaction gasUsed <= saturating(12000 x L); a transaction whose allowance is below its need fails, and the state part of Obs (code, storage, nonces over the universe) before vs after a block containing only that transaction may differ in nothing but the sender's nonce; the estimate loop is closed: eth_estimateGas and eth_call are answered at a block boundary, then the same call is executed with L = ceil(estimate / 12000) and must succeed with the same output (trace output). Programs (no GAS/TIMESTAMP/PREVRANDAO dependence): burner loops 0..1e5, cold/warm storage writes and clears (refunds), memory expansion, CREATE, logs, revert-bubbling nested calls, standard and Bitcoin precompiles; L from 0 through need to 2^64-1; inscription, signed and parked-then-drained transactions. A call needing 1.3x the simulation gas limit (memory expansion) with twice that allowance must succeed as an inscription and as a signed transaction. Non-trivial = allowance was the binding constraint (failed for lack of gas, or gasUsed within 10% of the allowance) or an estimate above the 21000 floor whose loop closed; distinct by (program, situation).",
         assumptions: vec!["no claim of minimality: an undersized allowance is allowed to fail".into()],
         exhaustive: false,
         min_nontrivial: 2,
@@ -317,6 +317,48 @@ fn one_case(ctx: &WorkerCtx, rep: &mut WorkerReport, case_seed: u64) {
         }
         let n = bed.d.ntx;
         bed.d.exec(Op::Finalise { ts, hash, count: n });
+    }
+    // the allowance follows the reported size whoever sends the transaction: a call that needs more
+    // gas than the simulation limit (memory expansion: quadratic, instant to execute) with an
+    // allowance twice its need must succeed as an inscription and as a signed transaction
+    {
+        let cap = rpc::call_gas_limit();
+        let words = ((cap as f64) * 1.3 * 512.0).sqrt() as u64;
+        let need_est = words * words / 512 + 3 * words + 40_000;
+        let len = need_est * 2 / GAS_PER_BYTE + 1;
+        let data = asm::tool_call(asm::OP_MSTORE, &[asm::word_u64(words * 32)], &[]);
+        for kind in ["inscription", "signed"] {
+            let rc = if kind == "inscription" {
+                bed.exec_alone(&bed.tool.clone(), &data, len)
+            } else {
+                let (ts, hash) = bed.next_block();
+                let n0 = hist::account_nonce(&mut bed.d.inst, &signer.addr);
+                let raw = signer.sign(Some(chain), n0, Some(t20), &data);
+                bed.uniq += 1;
+                let r = bed.d.exec(Op::Transact { raw: format!("0x{}", raw), enc: Enc::Hex, ctx: Ctx { ts, hash: hash.clone(), idx: 0 }, iid: format!("c16-big{}", bed.uniq), len, txid: hist::ZERO_HASH.into() });
+                let n = bed.d.ntx;
+                bed.d.exec(Op::Finalise { ts, hash, count: n });
+                hist::receipts_in(&r).into_iter().next()
+            };
+            let Some(rc) = rc else {
+                rep.inconclusive(format!("no receipt for the {} above the simulation limit", kind));
+                continue;
+            };
+            rep.evaluations += 1;
+            if !check_allowance(rep, ctx.seed, &rc, len, "call above the simulation gas limit") {
+                break;
+            }
+            let used = hexq(&rc["gasUsed"]);
+            if rc["status"].as_str() != Some("0x1") {
+                violation(rep, "C16", ctx.seed, &format!("starved-despite-sufficient-length:{}", kind),
+                    format!("a {} needing about {} gas failed although its inscription length of {} bytes allows {} gas (it used {}; simulation limit {})", kind, need_est, len, len * GAS_PER_BYTE, used, cap),
+                    json!({"case_seed": case_seed, "network": net, "receipt": rc}));
+                break;
+            }
+            if used > cap {
+                rep.nontrivial(format!("above-simulation-limit:{}", kind));
+            }
+        }
     }
     if rep.samples.len() < 2 {
         rep.sample(json!({"case_seed": case_seed, "network": net, "programs": progs.iter().map(|p| p.name.clone()).collect::<Vec<_>>(), "last_calls": log_json(&bed.d.log, 2)}));
